@@ -13,14 +13,14 @@ func init() { register("C45", "other", checkC45) }
 const pkgIdoc = rootModPath + "/pkg/idoc"
 
 func checkC45(c *Ctx, r *Report) {
-	r.Explanation = "Decides structural necessary conditions of the IDoc explode contract inside ExplodeXML: (R1) the element stack is pushed exactly once per StartElement and popped exactly once per EndElement with a non-empty stack; result.Segments has exactly one writer, an append of the closing frame's segment at the end of the list, and every path of the EndElement case that popped a frame passes through it before the next token — one entry per element, in closing order; (R2) each routed list (Items, Partners, Statuses, Dates) has exactly one writer, an append of that same segment, guarded by the membership test of its own set keyed by the segment's name, and reaching it does not depend on the outcome of another set's test (a first-match chain fails this); the set fields are built from the like-named configuration lists; (R3) the only write into a Fields map goes through the frame that is on top of the stack after the pop (the direct parent), with the closing element's name as key and its trimmed text as value, under the guard that this text is non-empty, and a path from the pop to the Segments append avoids that write only on the edges 'text empty', 'no parent' or 'parent collects no fields'; a frame gets a Fields map only when isRouted, which consults all four sets. R2 exposed the first-match routing repaired by d611875."
+	r.Explanation = "Decides structural necessary conditions of the IDoc explode contract inside ExplodeXML: (R1) the element stack is pushed exactly once per StartElement and popped exactly once per EndElement with a non-empty stack; result.Segments has exactly one writer, an append of the closing frame's segment at the end of the list, and every path of the EndElement case that popped a frame passes through it before the next token — one entry per element, in closing order; a result with a nil error is returned only after the token read reported io.EOF; (R2) each routed list (Items, Partners, Statuses, Dates) has exactly one writer, an append of that same segment, guarded by the membership test of its own set keyed by the segment's name, and reaching it does not depend on the outcome of another set's test (a first-match chain fails this); the set fields are built from the like-named configuration lists; (R3) the only write into a Fields map goes through the frame that is on top of the stack after the pop (the direct parent), with the closing element's name as key and its trimmed text as value, under the guard that this text is non-empty, and a path from the pop to the Segments append avoids that write only on the edges 'text empty', 'no parent' or 'parent collects no fields'; a frame gets a Fields map only when isRouted, which consults all four sets. R2 exposed the first-match routing repaired by d611875."
 	r.NotCovered = "the XML decoder's tokenisation (Strict=false, HTML auto-close) on input that is not well formed; JSON rendering in ToTopicRecords"
 	m, err := c.Mod("root")
 	if err != nil {
 		r.unresolved("C45.load", "root module", err.Error())
 		return
 	}
-	r.rule("C45.R1", "one Segments entry per closed element, appended in closing order; balanced push/pop", 4)
+	r.rule("C45.R1", "one Segments entry per closed element, appended in closing order; balanced push/pop; success only at end of input", 5)
 	r.rule("C45.R2", "independent routing: each list is fed by its own set's membership test only", 9)
 	r.rule("C45.R3", "Fields: direct children with non-empty trimmed text, written through the parent frame", 4)
 
@@ -206,6 +206,42 @@ func checkC45(c *Ctx, r *Report) {
 			} else {
 				r.ok("C45.R1", key, m.Pos(pushes[0].Pos()), "")
 			}
+		}
+	}
+
+	// a successful result is handed back only at the end of the input: every return with a nil error
+	// has passed `err == io.EOF` for the token read (an early success return drops every element that
+	// closes later)
+	{
+		eof := Guard{cl(atomFn("token error == io.EOF", func(l Lit) bool {
+			if l.Op != token.EQL {
+				return false
+			}
+			isTokErr := func(v ssa.Value) bool {
+				ex, ok := strip(v).(*ssa.Extract)
+				return ok && ex.Tuple == ssa.Value(tokCall) && ex.Index == 1
+			}
+			isEOF := func(v ssa.Value) bool {
+				u, ok := strip(v).(*ssa.UnOp)
+				if !ok {
+					return false
+				}
+				g, ok := u.X.(*ssa.Global)
+				return ok && g.Name() == "EOF" && g.Pkg != nil && g.Pkg.Pkg.Path() == "io"
+			}
+			return (isTokErr(l.X) && isEOF(l.Y)) || (isTokErr(l.Y) && isEOF(l.X))
+		}))}
+		n := 0
+		for _, b := range fn.Blocks {
+			ret, ok := b.Instrs[len(b.Instrs)-1].(*ssa.Return)
+			if !ok || len(ret.Results) != 2 || !isNilConst(ret.Results[1]) {
+				continue
+			}
+			n++
+			guardVerdict(m, r, "C45.R1", fmt.Sprintf("ExplodeXML returns a result only at the end of the input [%d]", n), fn, ret, eof)
+		}
+		if n == 0 {
+			r.unresolved("C45.R1", "ExplodeXML success return", "not found")
 		}
 	}
 
